@@ -16,6 +16,7 @@ struct LinData
   std::vector<double> b;
   std::vector<double> xint;  // a point with exactly representable A x = b (empty: none)
   int log2_scale = 0;        // the whole residual A x - b multiplied by 2^log2_scale (the minimiser does not move)
+  int log2_bscale = 0;       // only b multiplied by 2^log2_bscale (the minimiser and the residual at O(1) points scale with it)
 };
 
 std::vector<LinData> lin_menu(int n)
@@ -86,6 +87,15 @@ std::vector<LinData> lin_menu(int n)
     for (auto & x : b) x *= sc;
     v.push_back({"wc*2^" + std::to_string(e), A, b, {}, e});
   }
+  // the well-conditioned generic instance with a right-hand side of magnitude 2^530 ~ 3.5e159 (fifth seeded round): residual
+  // norms whose SQUARE is not representable in double, while A, J'J, J'r, the step and the minimiser (~1e159) all are. Only the
+  // modes that use the functor's exact Jacobian are run (a finite-difference step cannot resolve f at arguments of this size:
+  // outside the premise of numerical differentiation), and the distance to the minimiser is measured relative to its size.
+  {
+    auto b = bg;
+    for (auto & x : b) x = std::ldexp(x, 530);
+    v.push_back({"wc,b*2^530", base(m), b, {}, 0, 530});
+  }
   return v;
 }
 
@@ -135,6 +145,7 @@ struct LinCommon : TPBase
     }
   }
   bool wellcond() const { return wc; }
+  unsigned modes() const { return d.log2_bscale ? 0x6u : 0xFu; }  // Analytic and Default(jacobian) only for the huge right-hand side
   int nres() const { return m; }
   int nstarts() const { return 9; }
   bool basin(int) const { return true; }  // a full-rank linear problem is convex: every start is inside the basin
@@ -174,6 +185,11 @@ struct LinCommon : TPBase
     if (!wc) return NAN;
     L e = 0;
     for (int j = 0; j < n; ++j) e = std::max(e, std::fabs((L)x[j] - xminL[size_t(j)]));
+    if (d.log2_bscale) {  // relative to the size of the minimiser
+      L sz = 1;
+      for (int j = 0; j < n; ++j) sz = std::max(sz, std::fabs(xminL[size_t(j)]));
+      e /= sz;
+    }
     return (double)e;
   }
 };
@@ -255,7 +271,8 @@ void reg_static()
   int k = 0;
   for (auto & d : lin_menu(N)) {
     auto p = std::make_shared<const LinS<N>>(d);
-    mc::selfcheck("linear: analytic jacobian = central differences", jacobian_selfcheck(*p, 3));
+    // (the huge right-hand side instance has the same constant Jacobian A as the generic one; differences of f cancel there)
+    if (!d.log2_bscale) mc::selfcheck("linear: analytic jacobian = central differences", jacobian_selfcheck(*p, 3));
     // quick tier: sizes 1 and 3 completely, the others only the generic well-conditioned and the rank-deficient instance
     add_problem<LinS<N>>(p, N == 1 || N == 3 || k == 0 || k == 6);
     ++k;
